@@ -232,7 +232,11 @@ func ruleLineSanitised(c *Ctx) {
 				}
 			case "Payload":
 				// a raw payload write on a path some line type can take
-				if line {
+				if line && payloadValidated(pth.Facts, t.S) {
+					if sites[t.Ins] == nil {
+						sites[t.Ins] = &site{ins: t.Ins, good: true, msg: "payload written only where a test excluded CR and LF (a payload containing them is refused)"}
+					}
+				} else if line {
 					sites[t.Ins] = &site{ins: t.Ins, msg: "the payload of a status/error/integer reply is written verbatim: a CR or LF in it ends the frame early and lets the rest be read as further replies"}
 				}
 			}
@@ -312,4 +316,136 @@ func feasibleTypesAt(b *ssa.BasicBlock, fn *ssa.Function, tt typeTables) []int64
 		}
 	}
 	return out
+}
+
+// ruleSerializerTotal: a reply that cannot be serialized is not written at all (responseMessage
+// returns before the write), so the request stays unanswered and later replies shift. The
+// serializer may therefore fail only for a message type outside the table (never built by the
+// constructors) or by passing on the failure of a nested element — never depending on the
+// payload's content.
+func ruleSerializerTotal(c *Ctx, rid string) {
+	c.rule(rid, "every error return of Message.RESPBytes is either under the failed lookup of the message type in the type table or hands on the error of the nested array/element serialization: no payload content makes a reply unserializable")
+	tt := readTypeTables(c.P)
+	fn := c.P.Method(pkgProto, "Message", "RESPBytes")
+	if !c.anchor(rid, fn, "proto.(*Message).RESPBytes") {
+		return
+	}
+	m := serializerModel(c.P, fn, tt)
+	if m.Mode == "" {
+		c.undecided(rid, "Message.RESPBytes/buffer", c.P.pos(fn.Pos()), "no output accumulator found: "+m.Why)
+		return
+	}
+	n, bad := 0, 0
+	seen := map[string]bool{}
+	for _, p := range m.Paths {
+		if len(p.Ret.Results) != 2 || isNilConst(retOperand(p.Ret, 1)) {
+			continue
+		}
+		n++
+		okPath := false
+		for _, at := range p.Facts {
+			// failed type lookup
+			if at.Kind == "val" && !at.Pos {
+				if ex, ok := at.X.(*ssa.Extract); ok && ex.Index == 1 {
+					if cl, ok := ex.Tuple.(*ssa.Call); ok && isTypeToByteFn(staticCallee(cl.Common())) {
+						okPath = true
+					}
+				}
+			}
+			// error of the nested array accessor / serializer
+			if at.Kind == "nil" && !at.Pos {
+				if ex, ok := at.X.(*ssa.Extract); ok {
+					if cl, ok := ex.Tuple.(*ssa.Call); ok {
+						nme := calleeName(cl.Common())
+						if nme == nArrRESPBytes || nme == nRESPBytes || strings.HasSuffix(nme, "proto.Message).Array") {
+							okPath = true
+						}
+					}
+				}
+			}
+		}
+		if !okPath {
+			pos := c.P.instrPos(p.Ret)
+			if !seen[pos] {
+				seen[pos] = true
+				bad++
+				c.bad(rid, fmt.Sprintf("Message.RESPBytes/error-return#%d", bad), pos, "the serializer can fail for a message of a declared type depending on its payload: the reply is dropped without anything being written, the request stays unanswered")
+			}
+		}
+	}
+	if bad == 0 {
+		c.ok(rid, "Message.RESPBytes/error-returns", c.P.pos(fn.Pos()), fmt.Sprintf("%d error paths, all for an undeclared type or a nested failure", n))
+	}
+}
+
+// payloadValidated: the path facts exclude CR and LF from the payload field: a negative
+// bytes.ContainsAny/Contains*/Index* test on it, or the nil result of a repository validator
+// (a function returning an error that is nil only where such tests on its parameter hold).
+func payloadValidated(facts []Atom, field string) bool {
+	isField := func(v ssa.Value) bool {
+		v = strip(v)
+		if cv, ok := v.(*ssa.Convert); ok {
+			v = strip(cv.X)
+		}
+		f, ok := canonField(v)
+		return ok && f == field
+	}
+	absent := map[byte]bool{}
+	for _, at := range facts {
+		switch at.Kind {
+		case "call":
+			cc := at.Call.Common()
+			if at.Pos || len(cc.Args) < 2 || !isField(cc.Args[0]) {
+				continue
+			}
+			switch calleeName(cc) {
+			case "bytes.ContainsAny", "strings.ContainsAny":
+				if s, ok := constString(cc.Args[1]); ok {
+					for _, ch := range []byte(s) {
+						absent[ch] = true
+					}
+				}
+			case "bytes.ContainsRune", "strings.ContainsRune":
+				if cv, ok := constInt(cc.Args[1]); ok {
+					absent[byte(cv)] = true
+				}
+			case "bytes.Contains", "strings.Contains":
+				if bs, ok := constBytes(cc.Args[1]); ok && len(bs) == 1 {
+					absent[bs[0]] = true
+				}
+			}
+		case "nil":
+			if !at.Pos {
+				continue
+			}
+			call, ok := at.X.(*ssa.Call)
+			if !ok || !isErrorType(call.Type()) {
+				continue
+			}
+			h := staticCallee(call.Common())
+			if h == nil || !inRepo(h) || h.Blocks == nil || len(h.Params) != 1 || len(call.Common().Args) != 1 || !isField(call.Common().Args[0]) {
+				continue
+			}
+			okAll, any := true, false
+			for _, r := range returnsOf(h) {
+				if len(r.Results) != 1 || !isNilConst(retOperand(r, 0)) {
+					if len(r.Results) == 1 && !definitelyNonNil(strip(retOperand(r, 0))) && !isErrCtorCall(strip(retOperand(r, 0))) {
+						if cl, isCall := strip(retOperand(r, 0)).(*ssa.Call); !isCall || !nameIn(calleeName(cl.Common()), "fmt.Errorf", "errors.New") {
+							okAll = false
+						}
+					}
+					continue
+				}
+				any = true
+				ab := absentByFacts(h.Params[0], factsAt(r.Block()))
+				if !(ab['\r'] && ab['\n']) {
+					okAll = false
+				}
+			}
+			if any && okAll {
+				absent['\r'], absent['\n'] = true, true
+			}
+		}
+	}
+	return absent['\r'] && absent['\n']
 }
